@@ -105,6 +105,17 @@ def stepC18 (st : St) (ws : List String) : St × Resp :=
       let nz := nzOf s.h
       (if w == "A" then { st with a := some s } else { st with b := some s }, { model := s!"nz={nz}" })
     | none => (st, { model := "none" })
+  | ["addh", w, _route, hs] =>
+    -- explicit (small / structured) hashes through add_hash / add_many / hll_add_hash / a MinHash that
+    -- keeps them all: `add_hash` of each; the true set grows by the distinct ones
+    match which w with
+    | some s =>
+      let st := if w == "A" then { st with a := none } else { st with b := none }
+      let hs := natList hs
+      let s : Sk := { s with h := s.h.addMany hs, extra := sortedSet (s.extra ++ hs) }
+      let nz := nzOf s.h
+      (if w == "A" then { st with a := some s } else { st with b := some s }, { model := s!"nz={nz}" })
+    | none => (st, { model := "none" })
   | [op, w, start, n] =>
     if !(op == "add" || op == "addmany" || op == "addffi") then
       -- `A <p> <start> <n>` / `B <p> <start> <n>`: a new sketch
